@@ -121,6 +121,14 @@ impl<VM: VMBinding> WorkBucket<VM> {
     }
 
     pub fn set_enabled(&self, enabled: bool) {
+        #[cfg(mmtk_verif)]
+        crate::verif::emit(|| {
+            format!(
+                "\"ev\":\"BucketEnable\",\"stage\":{},\"value\":{}",
+                self.stage.into_usize() + 1,
+                enabled
+            )
+        });
         self.enabled.store(enabled, Ordering::SeqCst)
     }
 
@@ -156,6 +164,8 @@ impl<VM: VMBinding> WorkBucket<VM> {
 
     /// Open the bucket
     pub fn open(&self) {
+        #[cfg(mmtk_verif)]
+        crate::verif::emit(|| format!("\"ev\":\"BucketOpen\",\"stage\":{}", self.stage.into_usize() + 1));
         self.open.store(true, Ordering::SeqCst);
     }
 
@@ -181,23 +191,31 @@ impl<VM: VMBinding> WorkBucket<VM> {
             self.stage
         );
         self.open.store(false, Ordering::Relaxed);
+        #[cfg(mmtk_verif)]
+        crate::verif::emit(|| format!("\"ev\":\"BucketClose\",\"stage\":{}", self.stage.into_usize() + 1));
     }
 
     /// Add a work packet to this bucket
     /// Panic if this bucket cannot receive prioritized packets.
     pub fn add_prioritized(&self, work: Box<dyn GCWork<VM>>) {
+        #[cfg(mmtk_verif)]
+        self.verif_push("add_prioritized", work.get_type_name());
         self.prioritized_queue.as_ref().unwrap().push(work);
         self.notify_one_worker();
     }
 
     /// Add a work packet to this bucket
     pub fn add<W: GCWork<VM>>(&self, work: W) {
+        #[cfg(mmtk_verif)]
+        self.verif_push("add", std::any::type_name::<W>());
         self.queue.push(Box::new(work));
         self.notify_one_worker();
     }
 
     /// Add a work packet to this bucket
     pub fn add_boxed(&self, work: Box<dyn GCWork<VM>>) {
+        #[cfg(mmtk_verif)]
+        self.verif_push("add_boxed", work.get_type_name());
         self.queue.push(work);
         self.notify_one_worker();
     }
@@ -207,17 +225,27 @@ impl<VM: VMBinding> WorkBucket<VM> {
     /// used for notifying workers.  This usually happens if the current thread is the last worker
     /// parked.
     pub(crate) fn add_no_notify<W: GCWork<VM>>(&self, work: W) {
+        #[cfg(mmtk_verif)]
+        self.verif_push("add_no_notify", std::any::type_name::<W>());
         self.queue.push(Box::new(work));
     }
 
     /// Like [`WorkBucket::add_no_notify`], but the work is boxed.
     pub(crate) fn add_boxed_no_notify(&self, work: Box<dyn GCWork<VM>>) {
+        #[cfg(mmtk_verif)]
+        self.verif_push("add_no_notify", work.get_type_name());
         self.queue.push(work);
     }
 
     /// Add multiple packets with a higher priority.
     /// Panic if this bucket cannot receive prioritized packets.
     pub fn bulk_add_prioritized(&self, work_vec: Vec<Box<dyn GCWork<VM>>>) {
+        #[cfg(mmtk_verif)]
+        for w in work_vec.iter() {
+            self.verif_push("bulk_add", w.get_type_name());
+        }
+        #[cfg(mmtk_verif)]
+        self.verif_push("bulk_end", "");
         self.prioritized_queue.as_ref().unwrap().push_all(work_vec);
         self.notify_all_workers();
     }
@@ -227,6 +255,12 @@ impl<VM: VMBinding> WorkBucket<VM> {
         if work_vec.is_empty() {
             return;
         }
+        #[cfg(mmtk_verif)]
+        for w in work_vec.iter() {
+            self.verif_push("bulk_add", w.get_type_name());
+        }
+        #[cfg(mmtk_verif)]
+        self.verif_push("bulk_end", "");
         self.queue.push_all(work_vec);
         self.notify_all_workers();
     }
@@ -253,6 +287,14 @@ impl<VM: VMBinding> WorkBucket<VM> {
     }
 
     pub fn set_sentinel(&self, new_sentinel: Box<dyn GCWork<VM>>) {
+        #[cfg(mmtk_verif)]
+        crate::verif::emit(|| {
+            format!(
+                "\"ev\":\"SetSentinel\",\"stage\":{},\"type\":\"{}\"",
+                self.stage.into_usize() + 1,
+                verif_short_type(new_sentinel.get_type_name())
+            )
+        });
         let mut sentinel = self.sentinel.lock().unwrap();
         *sentinel = Some(new_sentinel);
     }
@@ -293,6 +335,22 @@ impl<VM: VMBinding> WorkBucket<VM> {
         }
     }
 
+    /// Verification hook: a packet is about to be pushed into this bucket (emitted before the
+    /// push, so that the event precedes every event of a worker that takes the packet).
+    /// `site = bulk_end` marks the end of the pushes of one bulk_add.
+    #[cfg(mmtk_verif)]
+    fn verif_push(&self, site: &'static str, type_name: &str) {
+        crate::verif::emit(|| {
+            format!(
+                "\"ev\":\"BucketPush\",\"stage\":{},\"site\":\"{}\",\"type\":\"{}\"",
+                self.stage.into_usize() + 1,
+                site,
+                verif_short_type(type_name)
+            )
+        });
+        crate::verif::sync_point("bucket.push", self.stage.into_usize() + 1);
+    }
+
     pub(super) fn get_queue(&self) -> &BucketQueue<VM> {
         &self.queue
     }
@@ -300,6 +358,29 @@ impl<VM: VMBinding> WorkBucket<VM> {
     pub(super) fn get_stage(&self) -> WorkBucketStage {
         self.stage
     }
+}
+
+/// Verification hook: a type name without generic arguments' module paths (events stay short;
+/// two different packet types never collapse because the generic arguments are kept).
+#[cfg(mmtk_verif)]
+pub(crate) fn verif_short_type(name: &str) -> String {
+    let mut out = String::new();
+    let mut seg = String::new();
+    for c in name.chars() {
+        if c.is_alphanumeric() || c == '_' {
+            seg.push(c);
+        } else if c == ':' {
+            seg.clear();
+        } else {
+            out.push_str(&seg);
+            seg.clear();
+            if c != ' ' && c != '"' && c != '\\' {
+                out.push(c);
+            }
+        }
+    }
+    out.push_str(&seg);
+    out
 }
 
 /// This enum defines all the work bucket types. The scheduler
